@@ -23,6 +23,11 @@ DecimalMarkOf(L) == CASE L = "en" -> En!DecimalMark [] L = "fr" -> Fr!DecimalMar
 ExecGroup(L, ws) == CASE L = "en" -> En!ExecGroup(ws) [] L = "fr" -> Fr!ExecGroup(ws) [] L = "es" -> Es!ExecGroup(ws) [] L = "pt" -> Pt!ExecGroup(ws) [] L = "it" -> It!ExecGroup(ws) [] L = "de" -> De!ExecGroup(ws) [] L = "nl" -> Nl!ExecGroup(ws)
 Annotate(L, toks) == CASE L = "en" -> En!Annotate(toks) [] L = "fr" -> Fr!Annotate(toks) [] OTHER -> {}
 
+VocabOf(L) == CASE L = "en" -> En!Vocabulary [] L = "fr" -> Fr!Vocabulary [] L = "es" -> Es!Vocabulary [] L = "pt" -> Pt!Vocabulary
+                [] L = "it" -> It!Vocabulary [] L = "de" -> De!Vocabulary [] L = "nl" -> Nl!Vocabulary
+MorphMarkerOf(L, w) == CASE L = "en" -> En!MorphMarker(w) [] L = "fr" -> Fr!MorphMarker(w) [] L = "es" -> Es!MorphMarker(w) [] L = "pt" -> Pt!MorphMarker(w)
+                [] L = "it" -> It!MorphMarker(w) [] L = "de" -> De!MorphMarker(w) [] L = "nl" -> Nl!MorphMarker(w)
+
 \* format_and_value / format_decimal_and_value: text and value (as a decimal string with "." mark)
 Format(L, b) == LET r == Render(b) IN
   IF L = "es" /\ IsFractionMk(b.marker) THEN [text |-> "1/" \o r, value |-> "1/" \o Canon(r)]   \* value = 1/n, kept symbolic
